@@ -1,17 +1,247 @@
 //! One space definition (alphabet, bound, oracle selection) per property.
 
-use crate::mc::{Local, Report, Tier};
-use crate::oracle::{self, Checks, Entry};
-use crate::refcbor::unhex;
-use serde_json::Value as Json;
+use crate::mc::{par_partitions, Local, Report, Tier};
+use crate::oracle::{self, check_decode, Case, Checks, Entry};
+use crate::refcbor::{hex, unhex, Item};
+use crate::refcose::Ty;
+use serde_json::{json, Value as Json};
 
+pub mod c07;
+pub mod c11;
 pub mod c08;
+pub mod c09;
+pub mod c10;
+pub mod c12;
+pub mod c13;
+pub mod c14;
+pub mod c15;
+pub mod c17;
+pub mod c18;
+
+#[derive(Clone, Copy, Debug, PartialEq, Eq, PartialOrd, Ord)]
+pub enum Scale {
+    /// reduced bounds, used when another property re-runs a space with an expensive oracle
+    Small,
+    Quick,
+    Thorough,
+}
+
+/// Exploration context: which property is being checked, with which oracle components.
+pub struct Ex<'a> {
+    pub rep: &'a Report,
+    pub pid: &'a str,
+    pub checks: Checks,
+    pub scale: Scale,
+}
+
+impl<'a> Ex<'a> {
+    pub fn own(rep: &'a Report, checks: Checks) -> Ex<'a> {
+        let scale = match rep.tier {
+            Tier::Quick => Scale::Quick,
+            Tier::Thorough => Scale::Thorough,
+        };
+        Ex { rep, pid: &rep.id, checks, scale }
+    }
+    pub fn pick<T>(&self, s: T, q: T, t: T) -> T {
+        match self.scale {
+            Scale::Small => s,
+            Scale::Quick => q,
+            Scale::Thorough => t,
+        }
+    }
+    pub fn decode(&self, l: &mut Local, space: &str, ty: Ty, entry: Entry, bytes: &[u8]) {
+        if let Ok(only) = std::env::var("VERIF_ONLY_CASE") {
+            if only != format!("{} {} {}", oracle::ty_name(ty), entry.name(), hex(bytes)) {
+                return;
+            }
+        }
+        check_decode(&Case { pid: self.pid, space, ty, entry, bytes }, &self.checks, l);
+    }
+    pub fn bound(&self, space: &str, k: &str, v: Json) {
+        self.rep.bound(&format!("{}.{}", space, k), v);
+    }
+}
+
+pub fn bstr_head(n: usize, out: &mut Vec<u8>) {
+    crate::refcbor::Enc::Bytes(vec![], 0); // (keeps the import honest)
+    let w = crate::refcbor::min_w(n as u64);
+    match w {
+        0 => out.push(0x40 | n as u8),
+        1 => {
+            out.push(0x58);
+            out.push(n as u8)
+        }
+        2 => {
+            out.push(0x59);
+            out.extend_from_slice(&(n as u16).to_be_bytes())
+        }
+        4 => {
+            out.push(0x5a);
+            out.extend_from_slice(&(n as u32).to_be_bytes())
+        }
+        _ => {
+            out.push(0x5b);
+            out.extend_from_slice(&(n as u64).to_be_bytes())
+        }
+    }
+}
+
+pub fn wrap_bstr(content: &[u8]) -> Vec<u8> {
+    let mut v = Vec::with_capacity(content.len() + 9);
+    bstr_head(content.len(), &mut v);
+    v.extend_from_slice(content);
+    v
+}
+
+pub fn cat(parts: &[&[u8]]) -> Vec<u8> {
+    parts.concat()
+}
+
+/// Explore every ordered sequence (with repetition) of at most `depth` pairs as a CBOR map; `offer`
+/// receives the encoded map of every node of the tree (not only the leaves).
+pub fn map_tree(ex: &Ex, space: &str, pairs: &[(Item, Item)], depth: usize, offer: &(dyn Fn(&[u8], usize, &mut Local) + Sync)) {
+    let enc: Vec<Vec<u8>> = pairs.iter().map(|(k, v)| [k.det(), v.det()].concat()).collect();
+    ex.bound(space, "map_entries_max", json!(depth));
+    ex.bound(space, "pair_alphabet", json!(pairs.len()));
+    let mut parts: Vec<Option<usize>> = vec![None];
+    if depth > 0 {
+        parts.extend((0..pairs.len()).map(Some));
+    }
+    fn rec(enc: &[Vec<u8>], seq: &mut Vec<usize>, depth: usize, space: &str, offer: &(dyn Fn(&[u8], usize, &mut Local) + Sync), l: &mut Local) {
+        let mut bytes = vec![0xa0 | seq.len() as u8];
+        for i in seq.iter() {
+            bytes.extend_from_slice(&enc[*i]);
+        }
+        l.state(seq.len() as u64);
+        if seq.len() == 2 {
+            l.sample(|| json!({"space": space, "pair_indices": seq.clone(), "map_hex": hex(&bytes)}));
+        }
+        offer(&bytes, seq.len(), l);
+        if seq.len() < depth {
+            for i in 0..enc.len() {
+                seq.push(i);
+                rec(enc, seq, depth, space, offer, l);
+                seq.pop();
+            }
+        }
+    }
+    let enc_ref = &enc;
+    par_partitions(ex.rep, parts, |p, l| match p {
+        None => {
+            l.state(0);
+            offer(&[0xa0], 0, l);
+        }
+        Some(first) => {
+            let mut seq = vec![*first];
+            rec(enc_ref, &mut seq, depth, space, offer, l);
+        }
+    });
+}
+
+/// Explore every array of exactly `arity` slots over `slots`; `offer` gets the encoded array.
+pub fn array_product(ex: &Ex, space: &str, slots: &[Item], arity: usize, offer: &(dyn Fn(&[u8], &mut Local) + Sync)) {
+    let enc: Vec<Vec<u8>> = slots.iter().map(|s| s.det()).collect();
+    ex.bound(space, &format!("arity{}_slot_alphabet", arity), json!(slots.len()));
+    if arity == 0 {
+        let mut l = Local::default();
+        l.state(0);
+        offer(&[0x80], &mut l);
+        ex.rep.merge(l);
+        return;
+    }
+    let enc_ref = &enc;
+    let parts: Vec<usize> = (0..slots.len()).collect();
+    par_partitions(ex.rep, parts, |first, l| {
+        let radices = vec![enc_ref.len(); arity - 1];
+        let mut f = |d: &[usize]| {
+            let mut bytes = vec![0x80 | arity as u8];
+            bytes.extend_from_slice(&enc_ref[*first]);
+            for i in d {
+                bytes.extend_from_slice(&enc_ref[*i]);
+            }
+            l.state(arity as u64);
+            offer(&bytes, l);
+        };
+        if arity == 1 {
+            f(&[]);
+        } else {
+            crate::mc::odometer(&radices, f);
+        }
+    });
+}
+
+/// Every place a header map can occur: (description, type to decode, message bytes).  `map` is the
+/// encoded header map.  Valid filler everywhere else, so the verdict hinges on the map alone.
+pub fn header_carriers(map: &[u8], all: bool) -> Vec<(&'static str, Ty, Vec<u8>)> {
+    let pb = wrap_bstr(map);
+    let e0: &[u8] = &[0x40];
+    let m0: &[u8] = &[0xa0];
+    let nil: &[u8] = &[0xf6];
+    let sig_with = |prot: &[u8], unprot: &[u8]| cat(&[&[0x83], prot, unprot, &[0x41, 0xaa]]);
+    let rec_with = |prot: &[u8], unprot: &[u8]| cat(&[&[0x83], prot, unprot, &[0x42, 0x63, 0x74]]);
+    let sigs1 = cat(&[&[0x81], &sig_with(e0, m0)]);
+    let recs1 = cat(&[&[0x81], &rec_with(e0, m0)]);
+    let mut v: Vec<(&'static str, Ty, Vec<u8>)> = vec![
+        ("Header", Ty::Header, map.to_vec()),
+        ("Sign1.unprotected", Ty::Sign1, cat(&[&[0x84], e0, map, nil, e0])),
+        ("Sign1.protected", Ty::Sign1, cat(&[&[0x84], &pb, m0, nil, e0])),
+    ];
+    if all {
+        let sig_p = sig_with(&pb, m0);
+        let sig_u = sig_with(e0, map);
+        let rec_p = rec_with(&pb, m0);
+        let rec_u = rec_with(e0, map);
+        let rec_nested_p = cat(&[&[0x84], e0, m0, nil, &[0x81], &rec_p]);
+        let rec_nested_u = cat(&[&[0x84], e0, m0, nil, &[0x81], &rec_u]);
+        let hdr_cs_p = cat(&[&[0xa1, 0x07], &sig_p]);
+        let hdr_cs_u = cat(&[&[0xa1, 0x07], &sig_u]);
+        let hdr_cs2_p = cat(&[&[0xa1, 0x07, 0x82], &sig_with(e0, m0), &sig_p]);
+        v.extend(vec![
+            ("ProtectedHeader.from_slice", Ty::Protected, map.to_vec()),
+            ("Signature.protected", Ty::Signature, sig_p.clone()),
+            ("Signature.unprotected", Ty::Signature, sig_u.clone()),
+            ("Sign.protected", Ty::Sign, cat(&[&[0x84], &pb, m0, nil, &sigs1])),
+            ("Sign.unprotected", Ty::Sign, cat(&[&[0x84], e0, map, nil, &sigs1])),
+            ("Sign.signer0.protected", Ty::Sign, cat(&[&[0x84], e0, m0, nil, &[0x81], &sig_p])),
+            ("Sign.signer1.unprotected", Ty::Sign, cat(&[&[0x84], e0, m0, nil, &[0x82], &sig_with(e0, m0), &sig_u])),
+            ("Mac.protected", Ty::Mac, cat(&[&[0x85], &pb, m0, nil, e0, &recs1])),
+            ("Mac.unprotected", Ty::Mac, cat(&[&[0x85], e0, map, nil, e0, &recs1])),
+            ("Mac.recipient.protected", Ty::Mac, cat(&[&[0x85], e0, m0, nil, e0, &[0x81], &rec_p])),
+            ("Mac.recipient.recipient.unprotected", Ty::Mac, cat(&[&[0x85], e0, m0, nil, e0, &[0x81], &rec_nested_u])),
+            ("Mac0.protected", Ty::Mac0, cat(&[&[0x84], &pb, m0, nil, e0])),
+            ("Mac0.unprotected", Ty::Mac0, cat(&[&[0x84], e0, map, nil, e0])),
+            ("Encrypt.protected", Ty::Encrypt, cat(&[&[0x84], &pb, m0, nil, &recs1])),
+            ("Encrypt.recipient.unprotected", Ty::Encrypt, cat(&[&[0x84], e0, m0, nil, &[0x81], &rec_u])),
+            ("Encrypt.recipient.recipient.protected", Ty::Encrypt, cat(&[&[0x84], e0, m0, nil, &[0x81], &rec_nested_p])),
+            ("Encrypt0.protected", Ty::Encrypt0, cat(&[&[0x83], &pb, m0, nil])),
+            ("Encrypt0.unprotected", Ty::Encrypt0, cat(&[&[0x83], e0, map, nil])),
+            ("Recipient.protected", Ty::Recipient, rec_p.clone()),
+            ("Recipient.recipient.protected", Ty::Recipient, rec_nested_p.clone()),
+            ("Header.countersig.protected", Ty::Header, hdr_cs_p.clone()),
+            ("Header.countersig.unprotected", Ty::Header, hdr_cs_u.clone()),
+            ("Header.countersigs[1].protected", Ty::Header, hdr_cs2_p.clone()),
+            ("Sign1.protected.countersig.protected", Ty::Sign1, cat(&[&[0x84], &wrap_bstr(&hdr_cs_p), m0, nil, e0])),
+            ("SuppPubInfo.protected", Ty::SuppPub, cat(&[&[0x82, 0x18, 0x80], &pb])),
+            ("KdfContext.supp_pub.protected", Ty::Kdf, cat(&[&[0x84, 0x26, 0x83, 0xf6, 0xf6, 0xf6, 0x83, 0xf6, 0xf6, 0xf6, 0x82, 0x18, 0x80], &pb])),
+        ]);
+    }
+    v
+}
 
 /// Run the space(s) of property `rep.id`; returns the minimum number of states below which the run
 /// counts as vacuous.
 pub fn run(rep: &Report) -> Option<u64> {
     match rep.id.as_str() {
+        "C07" => Some(c07::run(rep)),
         "C08" => Some(c08::run(rep)),
+        "C09" => Some(c09::run(rep)),
+        "C10" => Some(c10::run(rep)),
+        "C12" => Some(c12::run(rep)),
+        "C13" => Some(c13::run(rep)),
+        "C14" => Some(c14::run(rep)),
+        "C15" => Some(c15::run(rep)),
+        "C17" => Some(c17::run(rep)),
+        "C18" => Some(c18::run(rep)),
         _ => None,
     }
 }
@@ -19,7 +249,16 @@ pub fn run(rep: &Report) -> Option<u64> {
 /// Oracle components a property applies to decode cases.
 pub fn checks_for(pid: &str) -> Checks {
     match pid {
+        "C07" => c07::CHECKS,
         "C08" => c08::CHECKS,
+        "C09" => c09::CHECKS,
+        "C10" => c10::CHECKS,
+        "C12" => c12::CHECKS,
+        "C13" => c13::CHECKS,
+        "C14" => c14::CHECKS,
+        "C15" => c15::CHECKS,
+        "C17" => c17::CHECKS,
+        "C18" => c18::CHECKS,
         _ => Checks::NONE,
     }
 }
@@ -57,8 +296,8 @@ pub fn replay(path: &str) -> i32 {
         let bytes = unhex(d["hex"].as_str().unwrap_or("zz"));
         match (ty, entry, bytes) {
             (Some(ty), Some(entry), Some(bytes)) => {
-                let case = oracle::Case { pid: &pid, space: d["space"].as_str().unwrap_or("replay"), ty, entry, bytes: &bytes };
-                oracle::check_decode(&case, &checks_for(&pid), &mut l);
+                let case = Case { pid: &pid, space: d["space"].as_str().unwrap_or("replay"), ty, entry, bytes: &bytes };
+                check_decode(&case, &checks_for(&pid), &mut l);
             }
             _ => {
                 eprintln!("bad decode case in {}", path);
